@@ -19,6 +19,8 @@ OBSERVERS = ('Container.get_volume', 'Container.get_concentration')
 
 
 def run(ctx):
+    from .configtime import no_state_outside_objects as _no_state
+    _no_state(ctx, 'C18.R4', classes=None)
     from .configtime import config_file_precedence as _cfgfile
     _cfgfile(ctx, 'C18.R4')
     # per-well amounts gathered with numpy.vectorize need an explicit result type: without it the type of the first
